@@ -207,8 +207,15 @@ def check(ctx):
         I2, s2_ = ctx.interp(stubs=stubs, assume=protocols.assume_default), State()
         ref = ctx.call_func(I2, s2_, "ref.sparsekde_ref.tune_by_points", cellv, X2, gw2, s22, fl2, i2, delta, tune, fp)
         site = ctx.site(P.method(cls, "_tune_localization_factor_based_on_fraction_of_points"))
+        try:
+            X3, gw3, s23, fl3, i3 = mk_in()
+            I3, s3_ = ctx.interp(stubs=stubs, assume=protocols.assume_default), State()
+            alt = ctx.call_func(I3, s3_, "ref.sparsekde_ref.tune_by_points_halving", cellv, X3, gw3, s23, fl3, i3, delta, tune, fp)
+            alts = [[alt.items[k]] for k in range(3)]
+        except Exception:
+            alts = [[], [], []]
         for nm, k in (("sigma2", 0), ("flocal", 1), ("wlocal", 2)):
-            ctx.compare("NF-LOCAL", f"points tuner (widen, then bisect to within delta): {nm} [{cfg}]", N, r.items[k], ref.items[k], site, cfg)
+            ctx.compare("NF-LOCAL", f"points tuner (widen, then bisect to within delta): {nm} [{cfg}]", N, r.items[k], ref.items[k], site, cfg, alternatives=alts[k])
     # ---- what fit hands to the tuners: tune, delta, initial localisation, nearest-grid distance ------------
     for cell_on in (False, True):
         for mode in ("fpoints", "fspread"):
